@@ -31,7 +31,9 @@ SHARD_TIMEOUT = {"quick": 600, "thorough": 3000}
 LINES = [b"keep;", b"OK", b'OK "done"', b'NO "x"', b"NO", b"BYE", b"{5}", b"{5+}", b"{0}",
          b'"x" ACTIVE', b"ACTIVE", b'"quoted"', b"back\\slash", b'say "hi"', b"",
          b"# \xc3\xa9\xc3\xa8\xe2\x82\xac", b"if true {", b"}", b'  fileinto "a";', b"x" * 80,
-         b"\xe6\x97\xa5\xe6\x9c\xac", b"OK (WARNINGS) \"w\"", b"{3}abc", b"tab\there"]
+         b"\xe6\x97\xa5\xe6\x9c\xac", b"OK (WARNINGS) \"w\"", b"{3}abc", b"tab\there",
+         b"# form\x0cfeed", b"vt\x0bhere", b"fs\x1cgs\x1drs\x1e", b"nel\xc2\x85here",
+         b"ls\xe2\x80\xa8ps\xe2\x80\xa9end"]
 NAMES = [b"main", b"x y", b'q"q', b"{5}", b"{5+}", b"OK", b"NO", b"BYE", b"ACTIVE",
          b"x ACTIVE", b'"a" ACTIVE', b"\xc3\xa9t\xc3\xa9", b"a\\b", b"a\\", b'"', b'""',
          b"vac\xc3\xa0tion", b"script.sieve", b"l'apostrophe", b"(paren)", b"a" * 100]
